@@ -226,7 +226,7 @@ class PLSSDesc:
             config=None,
             parse_qq=None,
             source=None,
-            wait_to_parse=False):
+            wait_to_parse=None):
         """
         A 'raw' PLSS description of land. Will be parsed into one or
         more ``Tract`` objects, which are stored in the ``.tracts``
@@ -262,7 +262,8 @@ class PLSSDesc:
          from.)
 
         :param wait_to_parse: A bool, whether to wait to parse at init.
-         (Defaults to ``False`` -- i.e., parse at init.)
+         (Defaults to ``False`` -- i.e., parse at init -- unless
+         ``wait_to_parse`` is set in ``config``.)
         """
         self.orig_desc = raw_plss
         if not isinstance(raw_plss, str):
